@@ -415,6 +415,94 @@ Theorem retr_chunking_irrelevant : forall table off content
   = e2e_retr table off content block2 foracle2 cuts2 cblock2 coracle2.
 Proof. intros. now rewrite !retr_exact by assumption. Qed.
 
+(* ------------------------------------------------------------------------------------------ *)
+(* consumption programs: whatever the caller's program, it consumes exactly what was to come   *)
+
+Section ConsumeProofs.
+  Variables (St Or : Type).
+  Variable rd : nat -> Or -> St -> bytes * St.
+  Variable rest : St -> bytes.
+  Variable dflt : Or.
+  Hypothesis rd_ok : forall block o s d s', 1 <= block -> rd block o s = (d, s') -> d ++ rest s' = rest s.
+
+  Lemma iter_take_ok : forall k block os s d s',
+    1 <= block -> iter_take St Or rd dflt k block os s = (d, s') -> d ++ rest s' = rest s.
+  Proof.
+    induction k as [|k IH]; intros block os s d s' Hb H; cbn [iter_take] in H.
+    - injection H as <- <-. reflexivity.
+    - destruct (rd block (hd dflt os) s) as [d1 s1] eqn:Hr.
+      pose proof (rd_ok _ _ _ _ _ Hb Hr) as H1.
+      destruct d1 as [|x d1].
+      + injection H as <- <-. exact H1.
+      + destruct (iter_take St Or rd dflt k block (tl os) s1) as [r s2] eqn:Hi.
+        injection H as <- <-. pose proof (IH _ _ _ _ _ Hb Hi) as H2.
+        rewrite <- H1, <- H2. now rewrite app_assoc.
+  Qed.
+
+  Theorem consume_exact : forall prog s,
+    Forall cop_ok prog -> consume St Or rd rest dflt prog s = rest s.
+  Proof.
+    unfold consume. induction prog as [|op p IH]; intros s Hok; cbn [consume_with]; [reflexivity|].
+    inversion Hok as [|? ? Hop Hp]; subst.
+    destruct (cop_run St Or rd (iter_take St Or rd dflt) op s) as [d s'] eqn:Hr.
+    rewrite (IH _ Hp). destruct op as [block k os|n o]; cbn [cop_run cop_ok] in Hr, Hop.
+    - exact (iter_take_ok _ _ _ _ _ _ Hop Hr).
+    - exact (rd_ok _ _ _ _ _ Hop Hr).
+  Qed.
+End ConsumeProofs.
+
+Lemma sock_rd_ok : forall block o s d s',
+  1 <= block -> sock_rd block o s = (d, s') -> d ++ sock_rest s' = sock_rest s.
+Proof.
+  intros block o [buf net] d [b' n'] Hb H. unfold sock_rd in H. cbn [fst snd] in H.
+  unfold sock_rest. cbn [fst snd]. now destruct (sock_read_spec _ _ _ _ _ _ _ Hb H) as [Hc _].
+Qed.
+
+Lemma file_rd_ok : forall block r h d h',
+  1 <= block -> h_read block r h = (d, h') -> d ++ file_rest h' = file_rest h.
+Proof.
+  intros block r h d h' Hb H. unfold file_rest.
+  destruct (h_read_spec _ _ _ _ _ Hb H) as [Hc [Hd _]]. now rewrite Hc.
+Qed.
+
+Theorem sock_consume_exact : forall prog segs,
+  Forall cop_ok prog -> sock_consume prog segs = concat segs.
+Proof.
+  intros prog segs H. unfold sock_consume.
+  now rewrite (consume_exact _ _ sock_rd sock_rest (0, 0) sock_rd_ok prog ([], segs) H).
+Qed.
+
+Theorem file_consume_exact : forall prog h,
+  Forall cop_ok prog -> file_consume prog h = skipn (h_pos h) (h_content h).
+Proof.
+  intros prog h H. unfold file_consume.
+  now rewrite (consume_exact _ _ h_read file_rest 0 file_rd_ok prog h H).
+Qed.
+
+(* download side: the server's bytes, any segmentation, any consumption program *)
+Theorem retr_consume_exact : forall table off content block foracle segs wire prog,
+  retr_table_ok table -> 1 <= block ->
+  retr_worker table off content block foracle = Some wire ->
+  concat segs = wire ->
+  Forall cop_ok prog ->
+  sock_consume prog segs = spec_retr off content.
+Proof.
+  intros table off content block foracle segs wire prog Ht Hb Hw Hs Hp.
+  rewrite (retr_worker_exact _ _ _ _ _ Ht Hb) in Hw. injection Hw as <-.
+  now rewrite sock_consume_exact.
+Qed.
+
+Theorem retr_consume_program_irrelevant : forall segs prog1 prog2,
+  Forall cop_ok prog1 -> Forall cop_ok prog2 -> sock_consume prog1 segs = sock_consume prog2 segs.
+Proof. intros. now rewrite !sock_consume_exact. Qed.
+
+(* the statement is not vacuous about the iterator: with the prefetching iterator a loop left after one
+   block followed by read() loses the block whose read was already started *)
+Lemma prefetching_iterator_loses_a_block :
+  consume_with _ _ sock_rd sock_rest (iter_take_prefetching _ _ sock_rd (0, 0)) [CIter 2 1 [(0, 2); (0, 2)]] ([], [[1;2;3;4;5;6;7]%Z])
+  = [1;2;5;6;7]%Z.
+Proof. vm_compute. reflexivity. Qed.
+
 (* high-level upload(): local file read in blocks, each written to the stream *)
 Theorem upload_exact : forall table vm off old local cblock coracle block segs oracle,
   stor_table_ok table -> store_mode vm -> 1 <= cblock -> 1 <= block ->
